@@ -40,6 +40,8 @@ func runC10(c *Ctx) {
 	checkListCore(r, p)
 	// bulk operations of both flavours walk the other list's snapshot completely
 	checkBackwardLoopsCoverZero(r, p, pkg, append(p.Methods(pkg, "threadSafeList"), p.Methods(pkg, "list")...))
+	checkEndAccessor(r, p, pkg, "list", "MoveToFront", "root.prev", "whether the element is already at the front is decided by the front pointer (with the back pointer MoveToFront(Back()) does nothing)")
+	checkEndAccessor(r, p, pkg, "list", "MoveToBack", "root.next", "whether the element is already at the back is decided by the back pointer (with the front pointer MoveToBack(Front()) does nothing)")
 	// ---- (4) decorator
 	checkOverride(r, p, "decorator/declares-all", pkg, "threadSafeList", "List")
 	checkGuards(r, p, "lock/guarded-by", []GuardRow{{Pkg: pkg, Type: "threadSafeList", Mutex: "mutex", Fields: []string{"list"},
